@@ -1,14 +1,20 @@
 #!/bin/bash
-# usage: tools/try_patch.sh <property> <patch.diff> [tier]   -- applies the patch to /repo, runs the check, reverts.
+# usage: tools/try_patch.sh <property> <patch.diff> [tier]
+# Applies the patch to $TRY_REPO (default /repo), runs the check against it, reverts.  With TRY_REPO set to a
+# scratch worktree the check imports periodictable from there (PYTHONPATH), so /repo itself stays untouched.
 set -u
+HERE="$(cd "$(dirname "${BASH_SOURCE[0]}")/.." && pwd)"
 ID=$1; PATCH=$2; TIER=${3:-quick}
-cd /repo || exit 3
-if [ -n "$(git status --porcelain)" ]; then echo "/repo not clean"; exit 3; fi
+REPO=${TRY_REPO:-/repo}
+cd $REPO || exit 3
+if [ -n "$(git status --porcelain)" ]; then echo "$REPO not clean"; exit 3; fi
 git apply "$PATCH" || { echo "patch does not apply"; exit 3; }
-cd /verif
-timeout 3000 ./vcheck $ID --tier $TIER > /tmp/try_patch.$ID.log 2>&1
+cd $HERE
+if [ "$REPO" != "/repo" ]; then export PYTHONPATH=$REPO; fi
+timeout 3000 ./vcheck $ID --tier $TIER > /tmp/try_patch.$ID.$$.log 2>&1
 rc=$?
-git -C /repo checkout -- .
-echo "rc=$rc $(grep "^$ID tier" /tmp/try_patch.$ID.log | head -1)"
-grep -E "^VIOLATION|^  violation|HARNESS-ERROR|ENCODING-MISMATCH" /tmp/try_patch.$ID.log | cut -c1-400 | head -6
+git -C $REPO checkout -- .
+echo "rc=$rc $(grep "^$ID tier" /tmp/try_patch.$ID.$$.log | head -1)"
+grep -E "^VIOLATION|^  violation|HARNESS-ERROR|ENCODING-MISMATCH" /tmp/try_patch.$ID.$$.log | cut -c1-400 | head -6
+rm -f /tmp/try_patch.$ID.$$.log
 exit $rc
